@@ -17,6 +17,8 @@ def impl_opts(o):
     return {'minify': bool(o.get('minify')), 'xminify': bool(o.get('xminify')), 'tabs': bool(o.get('tabs')), 'spaces': int(o.get('spaces', 1))}
 
 
+POISON = ['a { width: calc(100% - 10px; }', '.s{background:url("x', '.t{content:"abc @{x', ".u{content:~'x", '.p { .q { width: @undefined-panel; } }', '@media screen and (', '.v{color:$red}',
+          '.w{ margin: (1px + ; }', '.sidebar { .panel { width: @panel-width; } }']
 ALL_OPTS = [{'minify': m, 'xminify': x, 'tabs': t, 'spaces': s} for m in (False, True) for x in (False, True) for t in (False, True) for s in range(9)]
 
 
@@ -26,7 +28,18 @@ def run(ctx, cases, pool=None, tag='sheet'):
     if own:
         pool = impl.Pool()
     try:
-        answers = pool.run([{'kind': 'compile', 'text': c['text'], 'opts': impl_opts(c['opts'])} for c in cases])
+        # one case in six is preceded, in the same worker process, by a compilation that is rejected (stopping inside a parenthesis, a
+        # string, a rule body): nothing of it may reach the next compilation
+        rng = random.Random(len(cases) * 7919 + ctx.get('seed', 0))
+        reqs = []
+        for c in cases:
+            if rng.random() < 1 / 6.0:
+                c['preceded_by'] = rng.choice(POISON)
+                reqs.append({'kind': 'compile_many', 'texts': [c['preceded_by'], c['text']], 'opts': impl_opts(c['opts'])})
+            else:
+                reqs.append({'kind': 'compile', 'text': c['text'], 'opts': impl_opts(c['opts'])})
+        raw = pool.run(reqs, timeout=20.0)
+        answers = [(a['results'][-1] if a.get('r') == 'many' else a) for a in raw]
     finally:
         if own:
             pool.close()
@@ -37,7 +50,7 @@ def run(ctx, cases, pool=None, tag='sheet'):
         bad, diag, errs = coqrun.evaluate(rows, MODS, wd, tag='m', shard=40)
         out['harness_errors'] += errs
         for i in bad:
-            out['model_mismatch'].append({'input': {'text': cases[i]['text'], 'opts': cases[i]['opts']}, 'impl': answers[i],
+            out['model_mismatch'].append({'input': dict({'text': cases[i]['text'], 'opts': cases[i]['opts']}, **({'preceded_by': cases[i]['preceded_by']} if 'preceded_by' in cases[i] else {})), 'impl': answers[i],
                                           'model': diag.get(i), 'classes': cases[i].get('classes', [])})
     # ---- the whole pipeline inside Coq, from the TEXT (lexer + token filter + reference parser + evaluator + formatter): no predicted tree
     if ctx.get('model_usable', True) and ctx.get('text_pipeline', True):
@@ -52,7 +65,7 @@ def run(ctx, cases, pool=None, tag='sheet'):
             if diag.get(i, '').startswith('ABSTAIN'):
                 abst += 1
                 continue
-            out['model_mismatch'].append({'input': {'text': cases[i]['text'], 'opts': cases[i]['opts'], 'via': 'text pipeline (Lex + Parse + Eval)'}, 'impl': answers[i],
+            out['model_mismatch'].append({'input': dict({'text': cases[i]['text'], 'opts': cases[i]['opts'], 'via': 'text pipeline (Lex + Parse + Eval)'}, **({'preceded_by': cases[i]['preceded_by']} if 'preceded_by' in cases[i] else {})), 'impl': answers[i],
                                           'model': diag.get(i), 'classes': cases[i].get('classes', [])})
         out['text_pipeline'] = {'cases': len(trows), 'abstains': abst}
     # ---- implementation vs reference semantics: read the produced CSS back and compare the flat items
@@ -70,7 +83,7 @@ def run(ctx, cases, pool=None, tag='sheet'):
     out['harness_errors'] += errs
     mm = {id(m['input']['text']): m for m in out['model_mismatch']}
     for i in bad:
-        rec = {'input': {'text': cases[i]['text'], 'opts': cases[i]['opts']}, 'impl': answers[i], 'spec': diag.get(i),
+        rec = {'input': dict({'text': cases[i]['text'], 'opts': cases[i]['opts']}, **({'preceded_by': cases[i]['preceded_by']} if 'preceded_by' in cases[i] else {})), 'impl': answers[i], 'spec': diag.get(i),
                'classes': cases[i].get('classes', [])}
         out['spec_mismatch'].append(rec)
     sb = set(bad)
